@@ -19,4 +19,11 @@ def globMatch (litSep : Bool) : Str → Str → Bool
   | _ :: _, [] => false
 termination_by p s => p.length + s.length
 
+
+/-- `globset` matches *bytes*: `?` consumes one byte of a multi-byte character, not the character.
+    The model therefore matches on the UTF-8 encodings. -/
+def toByteChars (s : Str) : Str := (utf8Bytes s).map Char.ofNat
+
+def globMatchU (litSep : Bool) (pat s : Str) : Bool := globMatch litSep (toByteChars pat) (toByteChars s)
+
 end Rocfl
